@@ -3,7 +3,7 @@
 TIER=${1:-quick}
 cd /verif
 for id in $(python3 -c "import json;print(' '.join(c['property_id'] for c in json.load(open('MANIFEST.json'))['checks']))"); do
-  S=$(date +%s); timeout ${PER:-3000} ./check $id --tier $TIER --no-evidence > /tmp/runall_$id.log 2>&1; RC=$?; E=$(date +%s)
+  S=$(date +%s); timeout ${PER:-3000} ./check $id --tier $TIER $NOEV > /tmp/runall_$id.log 2>&1; RC=$?; E=$(date +%s)
   echo "$id rc=$RC $((E-S))s $(tail -1 /tmp/runall_$id.log | cut -c1-160)"
   grep -h "^VIOLATION\|^INCONCLUSIVE" /tmp/runall_$id.log | cut -c1-220 | head -3
 done
